@@ -20,6 +20,22 @@ std::string glue_write_static_offsets() {
 VF_WORLD_LIST(VF_INST)
 #undef VF_INST
 
+// the two generator outputs written one after the other to the SAME stream (one generated
+// header with the tables and the offsets): returns what write_static_offsets wrote
+template<class P>
+std::string glue_write_static_offsets_after_encode(const generic_compiler& c, const std::string& policy) {
+    std::ostringstream os;
+    yorel::yomm2::generator::encode_dispatch_data(c, policy, os);
+    auto mark = os.str().size();
+    yorel::yomm2::generator gen;
+    gen.write_static_offsets<P>(os);
+    return os.str().substr(mark);
+}
+
+#define VF_INST(P) template std::string glue_write_static_offsets_after_encode<P>(const generic_compiler&, const std::string&);
+VF_WORLD_LIST(VF_INST)
+#undef VF_INST
+
 std::string glue_encode(const generic_compiler& c, const std::string& policy) {
     std::ostringstream os;
     if (policy.empty())
